@@ -154,6 +154,16 @@ register("C12", [
 
 
 # ---------------------------------------------------------------------------------------------
+# phase 3: the synthetic datasets — number of blob samples, slices per generated volume
+register("C12", [
+    Kernel("blobs_n_samples", FK, "FakeMRIData.make_blobs", ["given", "total", "ndim"], "Dataset.blobsNSamples",
+           assign_value({"self.blobs_n_samples": "given", "np.prod(list(spatial_shape))": "total", "self.ndim": "ndim"},
+                        "n_samples"), imports=IMP),
+    Kernel("fake_num_slices", DS, "FakeMRIBlobsDataset.parse_filenames_data", ["ndim", "shape0"], "Dataset.fakeNumSlices",
+           assign_value({"len(self.spatial_shape)": "ndim", "self.spatial_shape[0]": "shape0"}, "num_slices"), imports=IMP),
+])
+
+# ---------------------------------------------------------------------------------------------
 # structural tables
 import re as _re
 
@@ -323,8 +333,12 @@ def _shepp_table(ds_tree, sn_tree) -> dict[str, bool]:
     t["sensSeedsWhenNotNone"] = _sens_seeds(sn_tree)
     # no draw from the global stream in __getitem__ itself, and every private stream is seeded with the slice's seed
     ctors = _calls(gi, lambda f: f in _STREAM_CTORS)
+    # … and every draw in the item path is made on such a freshly seeded stream (not on a stream kept on the object)
+    draws = [c for c in ast.walk(gi) if isinstance(c, ast.Call) and isinstance(c.func, ast.Attribute)
+             and c.func.attr in _RNG_METHODS and _txt(c.func.value) not in ("np", "np.fft", "numpy")]
     t["noiseSeeded"] = not _calls(gi, _global_draw) and all(
-        len(c.args) == 1 and not c.keywords and _txt(c.args[0]) == "self.seed[idx]" for c in ctors)
+        len(c.args) == 1 and not c.keywords and _txt(c.args[0]) == "self.seed[idx]" for c in ctors) and all(
+        isinstance(c.func.value, ast.Call) and c.func.value in ctors for c in draws)
     return t
 
 
@@ -450,6 +464,8 @@ def _class_table(h5_tree, ds_tree) -> tuple[dict[str, bool], dict[str, bool]]:
     return t, c
 
 
+_RNG_METHODS = {"randn", "rand", "uniform", "normal", "standard_normal", "choice", "shuffle", "permutation", "randint",
+                "random_sample", "random", "seed", "set_state", "integers"}
 _MUTATORS = {"append", "extend", "insert", "pop", "popitem", "clear", "update", "setdefault", "add", "discard", "remove", "sort",
              "reverse", "__setitem__", "__delitem__"}
 _DATASET_CLASSES = {DS: ["FakeMRIBlobsDataset", "FastMRIDataset", "CMRxReconDataset", "CalgaryCampinasDataset", "ConcatDataset",
@@ -539,6 +555,200 @@ def _shared_state_table(trees: dict[str, ast.Module]) -> dict[str, bool]:
     return t
 
 
+def _returns(fn: ast.FunctionDef) -> list[str]:
+    return [_txt(n.value) for n in ast.walk(fn) if isinstance(n, ast.Return) and n.value is not None]
+
+
+def _fake_index_table(ds_tree) -> dict[str, bool]:
+    """FakeMRIBlobsDataset: names, per-volume ranges, the (filename, slice_no, seed) list, item plumbing"""
+    t: dict[str, bool] = {}
+    pf = find_function(ds_tree, "FakeMRIBlobsDataset.parse_filenames_data")
+    body = [_txt(x) for x in pf.body]
+    t["none_becomes_sample"] = "iffilenamesisNone:filenames=['sample']" in "".join(body[:1]).replace("\n", "")
+    t["string_becomes_singleton"] = any(b.replace("\n", "") == "ifisinstance(filenames,str):filenames=[filenames]" for b in body)
+    ren = next((x for x in pf.body if isinstance(x, ast.If) and _txt(x.test) == "len(filenames)!=self.sample_size"), None)
+    t["renamed_iff_count_differs"] = ren is not None and not ren.orelse and [_txt(x) for x in ren.body] == [
+        "filenames=[filenames[0]+f'{_:05}'for_inrange(1,self.sample_size+1)]"]
+    loop = next((x for x in pf.body if isinstance(x, ast.For)), None)
+    t["loop_over_names"] = loop is not None and _txt(loop.iter) == "enumerate(filenames)"
+    t["counter_starts_at_zero"] = any(_txt(x) == "current_slice_number=0" for x in pf.body)
+    tail = [_txt(x) for x in (loop.body[1:] if loop is not None else [])]
+    t["range_per_name_then_increment"] = tail[-2:] == [
+        "self.volume_indices[pathlib.PosixPath(filename)]=range(current_slice_number,current_slice_number+num_slices)",
+        "current_slice_number+=num_slices"] and len(tail) == 3
+    t["returns_names"] = _returns(pf) == ["filenames"]
+    init = find_function(ds_tree, "FakeMRIBlobsDataset.__init__")
+    data = [x for x in ast.walk(init) if isinstance(x, ast.Assign) and _txt(x.targets[0]) == "self.data"]
+    t["data_is_names_zip_seeds_times_slices"] = len(data) == 1 and _txt(data[0].value) == (
+        "[(filename,slice_no,seed)forfilename,seedinzip(self.parse_filenames_data(filenames),"
+        "list(self.rng.choice(a=range(int(100000.0)),size=self.sample_size,replace=False)))"
+        "forslice_noinrange(self.spatial_shape[0]iflen(spatial_shape)==3else1)]")
+    gi = find_function(ds_tree, "FakeMRIBlobsDataset.__getitem__")
+    t["item_reads_data_idx"] = _txt(gi.body[0]) == "filename,slice_no,sample_seed=self.data[idx]"
+    calls = _calls(gi, lambda f: f == "self.fake_data")
+    kws = {k.arg: _txt(k.value) for k in calls[0].keywords} if len(calls) == 1 else {}
+    t["generator_called_for_one_sample_of_this_shape"] = kws == {
+        "sample_size": "1", "num_coils": "self.num_coils", "spatial_shape": "self.spatial_shape", "name": "[filename]",
+        "seed": "sample_seed"} and isinstance(calls[0].__dict__.get("args"), list) and not calls[0].args
+    t["item_is_slice_of_generated_volume"] = any(_txt(x) == "sample['kspace']=sample['kspace'][slice_no]" for x in gi.body)
+    t["item_reports_slice_no"] = any(_txt(x) == "sample['slice_no']=slice_no" for x in gi.body)
+    t["len_is_len_data"] = _returns(find_function(ds_tree, "FakeMRIBlobsDataset.__len__")) == ["len(self.data)"]
+    return t
+
+
+def _shepp_index_table(ds_tree) -> tuple[dict[str, bool], bool]:
+    t: dict[str, bool] = {}
+    si = find_function(ds_tree, "SheppLoganDataset.sample_image")
+    t["rendered_slice_is_idx_mod_nz"] = "np.linspace(self.zlimits[0],self.zlimits[1],self.nz)[idx%self.nz]" in _txt(si)
+    gi = find_function(ds_tree, "SheppLoganDataset.__getitem__")
+    t["image_from_sample_image_idx"] = _txt(gi.body[0]) == "image=self.sample_image(idx)"
+    # every use of `self.seed[...]` in the item path indexes with idx
+    subs = [x for x in ast.walk(gi) if isinstance(x, ast.Subscript) and _txt(x.value) == "self.seed"]
+    t["seed_indexed_by_idx"] = bool(subs) and all(_txt(x.slice) == "idx" for x in subs)
+    samp = [x for x in ast.walk(gi) if isinstance(x, ast.Assign) and _txt(x.targets[0]) == "sample" and isinstance(x.value, ast.Dict)]
+    rep = None
+    if len(samp) == 1:
+        d = {_txt(k): _txt(v) for k, v in zip(samp[0].value.keys, samp[0].value.values)}
+        rep = d.get("'slice_no'")
+        t["item_filename_is_dataset_name"] = d.get("'filename'") == "self.name"
+    else:
+        t["item_filename_is_dataset_name"] = False
+    t["slice_no_is_idx_or_rendered_slice"] = rep in ("idx", "idx%self.nz")
+    t["noise_shape_is_image_shape"] = all(_txt(c.args[0]) == "*image.shape" and len(c.args) == 1
+                                          for c in _calls(gi, lambda f: f.endswith(".randn")))
+    t["len_is_nz"] = _returns(find_function(ds_tree, "SheppLoganDataset.__len__")) == ["self.nz"]
+    init = find_function(ds_tree, "SheppLoganDataset.__init__")
+    t["single_range_over_len"] = any(_txt(x) == "self.volume_indices[pathlib.Path(self.name)]=range(self.__len__())" for x in init.body)
+    t["one_seed_per_slice"] = any(
+        _txt(x) == "self.seed=list(self.rng.choice(a=range(int(100000.0)),size=self.nz,replace=False))" for x in ast.walk(init)
+        if isinstance(x, ast.Assign))
+    return t, rep == "idx"
+
+
+def _blob_call_table(fk_tree, sn_tree) -> dict[str, bool]:
+    t: dict[str, bool] = {}
+    mb = find_function(fk_tree, "FakeMRIData.make_blobs")
+    calls = _calls(mb, lambda f: f == "make_blobs")
+    kws = {k.arg: _txt(k.value) for k in calls[0].keywords} if len(calls) == 1 else {}
+    t["n_samples_keyword"] = kws.get("n_samples") == "n_samples"
+    t["n_features_is_ndim"] = kws.get("n_features") == "self.ndim"
+    t["centers_is_num_coils"] = kws.get("centers") == "num_coils"
+    t["shuffle_left_at_default"] = "shuffle" not in kws
+    t["no_positional_arguments"] = len(calls) == 1 and not calls[0].args
+    ss = find_function(sn_tree, "simulate_sensitivity_maps")
+    draws = [_txt(n) for n in _calls(ss, lambda f: _global_draw(f) and f != "np.random.seed")]
+    t["sens_single_uniform_draw"] = draws == ["np.random.uniform(0,2*np.pi,1)"]
+    t["sens_single_coil_returns_before_any_draw"] = isinstance(ss.body[1] if len(ss.body) > 1 else None, ast.If) and \
+        _txt(ss.body[1].test) == "num_coils==1" and isinstance(ss.body[1].body[-1], ast.Return)
+    gk = find_function(fk_tree, "FakeMRIData.get_kspace")
+    sens_if = [x for x in gk.body if isinstance(x, ast.If) and _calls(x, lambda f: f == "simulate_sensitivity_maps")]
+    t["sens_only_for_several_coils"] = len(sens_if) == 1 and _txt(sens_if[0].test) == "num_coils>1"
+    return t
+
+
+_ITEM_PATH = {DS: ["FakeMRIBlobsDataset.__getitem__", "FakeMRIBlobsDataset.__len__", "FastMRIDataset.__getitem__",
+                   "CMRxReconDataset.__getitem__", "CMRxReconDataset.get_slice_data", "CMRxReconDataset.__len__",
+                   "CalgaryCampinasDataset.__getitem__", "ConcatDataset.__getitem__", "ConcatDataset.__len__",
+                   "SheppLoganDataset.__getitem__", "SheppLoganDataset.sample_image", "SheppLoganDataset.__len__"],
+              H5: ["H5SliceData.__getitem__", "H5SliceData.get_slice_data", "H5SliceData.__len__", "H5SliceData.get_num_slices"],
+              FK: ["FakeMRIData.__call__", "FakeMRIData.get_kspace", "FakeMRIData.make_blobs", "FakeMRIData.set_attrs"]}
+
+
+def _writes_self(fn: ast.FunctionDef) -> bool:
+    """does the function assign / delete / mutate an attribute of `self` (or of its class)?"""
+    def on_self(n):
+        while isinstance(n, (ast.Attribute, ast.Subscript)):
+            n = n.value
+        return isinstance(n, ast.Name) and n.id in ("self", "cls") or (isinstance(n, ast.Call) and _txt(n) == "type(self)")
+
+    for n in ast.walk(fn):
+        targets = []
+        if isinstance(n, ast.Assign):
+            targets = n.targets
+        elif isinstance(n, (ast.AugAssign, ast.AnnAssign)):
+            targets = [n.target]
+        elif isinstance(n, ast.Delete):
+            targets = n.targets
+        for t in targets:
+            for sub in ast.walk(t):
+                if isinstance(sub, (ast.Attribute, ast.Subscript)) and isinstance(sub.ctx, (ast.Store, ast.Del)) and on_self(sub):
+                    return True
+        if isinstance(n, ast.Call) and isinstance(n.func, ast.Attribute) and n.func.attr in (_MUTATORS | {"setattr"}) \
+                and isinstance(n.func.value, (ast.Attribute, ast.Subscript)) and on_self(n.func.value):
+            return True
+        if isinstance(n, ast.Call) and _txt(n.func) == "setattr" and n.args and on_self(n.args[0]):
+            return True
+        # a draw from (or reseeding of) a stream kept on the object advances state that outlives the call
+        if isinstance(n, ast.Call) and isinstance(n.func, ast.Attribute) and n.func.attr in _RNG_METHODS \
+                and isinstance(n.func.value, (ast.Attribute, ast.Subscript)) and on_self(n.func.value):
+            return True
+    return False
+
+
+def _instance_state_table(trees: dict[str, ast.Module]) -> dict[str, bool]:
+    """loading an item writes no attribute of the dataset object: `ds[i]` leaves `ds` as it was (so a pickled / forked /
+    deep-copied object, or the same object served from several workers or epochs, behaves like the original)"""
+    t: dict[str, bool] = {}
+    for file, fns in _ITEM_PATH.items():
+        for q in fns:
+            t[q.replace(".", "_") + "_writes_no_instance_state"] = not _writes_self(find_function(trees[file], q))
+    return t
+
+
+_DATASET_CTORS = ("H5SliceData", "FastMRIDataset", "CalgaryCampinasDataset", "CMRxReconDataset", "FakeMRIBlobsDataset",
+                  "SheppLoganDataset", "SheppLoganProtonDataset", "SheppLoganT1Dataset", "SheppLoganT2Dataset")
+
+
+def _callers_table() -> dict[str, bool]:
+    """call sites outside direct/data/{datasets,h5_data}.py: datasets are only built through build_dataset(_from_input) and
+    concatenated through direct's ConcatDataset"""
+    direct_ctor, torch_concat, concat_sites, build_sites = [], [], [], []
+    for path in sorted((REPO / "direct").rglob("*.py")):
+        rel = str(path.relative_to(REPO))
+        if rel in (DS, H5):
+            continue
+        try:
+            tree = parse_file(path)
+        except Untranslatable:
+            continue
+        src_imports = [_txt(n) for n in ast.walk(tree) if isinstance(n, (ast.Import, ast.ImportFrom))]
+        for n in ast.walk(tree):
+            if isinstance(n, ast.Call):
+                f = _txt(n.func)
+                last = f.rsplit(".", 1)[-1]
+                if last in _DATASET_CTORS:
+                    direct_ctor.append(f"{rel}:{n.lineno}")
+                if last == "ConcatDataset":
+                    concat_sites.append(rel)
+                    if "torch" in f or any("torch.utils.data" in i and "ConcatDataset" in i for i in src_imports):
+                        torch_concat.append(f"{rel}:{n.lineno}")
+                if last in ("build_dataset", "build_dataset_from_input"):
+                    build_sites.append(rel)
+    return {"no_dataset_class_constructed_outside_the_data_modules": not direct_ctor,
+            "concatenation_uses_direct_ConcatDataset": bool(concat_sites) and not torch_concat,
+            "datasets_built_through_build_dataset_from_input": bool(build_sites)}
+
+
+def _build_table(ds_tree) -> dict[str, bool]:
+    """build_dataset / build_dataset_from_input: class by name, keyword arguments win over the configuration"""
+    t: dict[str, bool] = {}
+    bd = find_function(ds_tree, "build_dataset")
+    t["class_is_name_plus_Dataset"] = any(
+        _txt(x.value) == "str_to_class('direct.data.datasets',name+'Dataset')" for x in ast.walk(bd)
+        if isinstance(x, (ast.Assign, ast.AnnAssign)) and x.value is not None)
+    t["constructed_with_transform_and_kwargs"] = any(
+        _txt(x.value) == "dataset_class(transform=transforms,**kwargs)" for x in ast.walk(bd) if isinstance(x, ast.Assign))
+    bi = find_function(ds_tree, "build_dataset_from_input")
+    t["kwargs_win_over_config"] = any(
+        _txt(x.value) == "remove_keys(dict(dataset_config),['name','transforms']+list(kwargs.keys()&dict(dataset_config).keys()))"
+        for x in ast.walk(bi) if isinstance(x, ast.Assign))
+    t["built_with_kwargs_and_config"] = any(
+        _txt(x.value) == "build_dataset(name=dataset_config.name,transforms=transforms,**kwargs,**config_kwargs)"
+        for x in ast.walk(bi) if isinstance(x, ast.Assign))
+    t["initial_images_become_pass_h5s"] = "pass_h5s={'initial_image':(dataset_config.input_image_key,kwargs.get('initial_images'))}" in _txt(bi)
+    return t
+
+
 def _lean_bool(b: bool) -> str:
     return "true" if b else "false"
 
@@ -616,6 +826,24 @@ def _c12_extra():
         order = ["passesSeedToSens", "sensSeedsWhenNotNone", "noiseSeeded"]
         out.append("/-- seed plumbing of SheppLoganDataset.__getitem__ -/\ndef sheppTable : Dataset.SheppTable :=\n  { "
                    + ", ".join(f"{k} := {_lean_bool(st[k])}" for k in order) + " }\n")
+    fit = table("fakeIndexTable", lambda: _fake_index_table(ds), {"skipped": True})
+    out.append("/-- FakeMRIBlobsDataset: names, ranges, (filename, slice_no, seed) list, item plumbing -/\n" + _emit_list("fakeIndexTable", fit))
+    sit = table("sheppIndexTable", lambda: _shepp_index_table(ds), None)
+    if sit is None:
+        out.append("/-- SKIPPED -/\ndef sheppIndexTable : List (String × Bool) := [(\"skipped\", true)]\n"
+                   "def sheppSliceNoIsIndexAsGiven : Bool := Dataset.sheppReportsIndexAsGiven\n")
+    else:
+        out.append("/-- SheppLoganDataset: which slice / seed / slice_no an index gives -/\n" + _emit_list("sheppIndexTable", sit[0]) +
+                   f"/-- is the reported slice_no the index as given (and not the rendered slice)? -/\n"
+                   f"def sheppSliceNoIsIndexAsGiven : Bool := {_lean_bool(sit[1])}\n")
+    bct = table("blobCallTable", lambda: _blob_call_table(fk, sn), {"skipped": True})
+    out.append("/-- the make_blobs call and the single draw of simulate_sensitivity_maps -/\n" + _emit_list("blobCallTable", bct))
+    ist = table("instanceStateTable", lambda: _instance_state_table({DS: ds, H5: h5, FK: fk}), {"skipped": True})
+    out.append("/-- loading an item writes no attribute of the dataset object -/\n" + _emit_list("instanceStateTable", ist))
+    clt = table("callersTable", _callers_table, {"skipped": True})
+    out.append("/-- call sites outside the data modules -/\n" + _emit_list("callersTable", clt))
+    bdt = table("buildTable", lambda: _build_table(ds), {"skipped": True})
+    out.append("/-- build_dataset / build_dataset_from_input -/\n" + _emit_list("buildTable", bdt))
     return "\n".join(out), status
 
 
